@@ -79,6 +79,37 @@ def unrolled_assigns(tree, global_literals=None):
     return out
 
 
+class RuleAlias:
+    """a report through which a rule group written for one property files its obligations under another property's rule ids (the clause is
+    part of both properties' arguments): rule ids are rewritten by `rename` (None: the obligation stays with its own property only), everything else goes to the underlying report"""
+
+    def __init__(self, rep, rename):
+        self._rep, self._rename = rep, rename
+
+    def ok(self, rule, *a, **k):
+        r = self._rename(rule)
+        return None if r is None else self._rep.ok(r, *a, **k)
+
+    def violation(self, rule, *a, **k):
+        r = self._rename(rule)
+        return None if r is None else self._rep.violation(r, *a, **k)
+
+    def check(self, cond, rule, *a, **k):
+        r = self._rename(rule)
+        return None if r is None else self._rep.check(cond, r, *a, **k)
+
+    def info(self, rule, *a, **k):
+        r = self._rename(rule)
+        return None if r is None else self._rep.info(r, *a, **k)
+
+    def require_min(self, rule, minimum):
+        r = self._rename(rule)
+        return None if r is None else self._rep.require_min(r, minimum)
+
+    def __getattr__(self, name):
+        return getattr(self._rep, name)
+
+
 def bind_named(fn, spec, skip_first=True, optional=()):
     """arguments for a call of `fn` from values the caller knows by the parameter names of the reference tree: [(name, value), ...].
     When the function still has parameters of those names they are bound by name (their order is the function's own business);
